@@ -446,6 +446,16 @@ func (x *Exec) loopBack(li *loopInfo, st *State, cond Term, variants map[*ssa.Ba
 		o := x.oblige(bs, "loop-preserve", fmt.Sprintf("loop%d-preserve:%d%s", li.ordinal, k+1, edge), t, li.head.Instrs[0].Pos(), false, x.props())
 		o.Clause, o.Line = c.Text, c.Line
 	}
+	for k, c := range x.fc.LoopStep[li.ordinal] {
+		// one iteration: athead(e) / old(e) read the state at the head of this iteration
+		hs := x.headStates[li.head]
+		if hs == nil {
+			hs = x.entry
+		}
+		t := x.evalClause(c, x.fn, bs, hs, nil, false)
+		o := x.oblige(bs, "loop-preserve", fmt.Sprintf("loop%d-step:%d%s", li.ordinal, k+1, edge), t, li.head.Instrs[0].Pos(), false, x.props())
+		o.Clause, o.Line = c.Text, c.Line
+	}
 	if dec := x.fc.LoopDec[li.ordinal]; dec != nil {
 		v := x.evalClause(dec, x.fn, bs, x.entry, nil, false)
 		v0 := variants[li.head]
